@@ -17,6 +17,7 @@ import (
 	"fmt"
 	"os"
 	"sort"
+	"strings"
 	"time"
 
 	"github.com/bluenviron/mediamtx/internal/zzverif/c12lib"
@@ -28,6 +29,7 @@ var (
 	flagWTmp   = flag.String("wtmp", "", "internal: worker temp dir")
 	flagDepth  = flag.Int("depth", 0, "history depth (0 = tier default)")
 	flagProcs  = flag.Int("procs", 0, "worker processes (0 = one per core, max 16)")
+	flagReplay = flag.String("replay-history", "", "debug: JSON array of ops to run in-process on one Core, printing every answer")
 	flagBench  = flag.Bool("bench", false, "internal: time the phases of one Core life")
 	flagBudget = flag.Duration("budget", 0, "internal deadline (0 = tier default)")
 )
@@ -50,6 +52,10 @@ func main() {
 	}
 	if *flagBench {
 		bench()
+		return
+	}
+	if *flagReplay != "" {
+		replay(*flagReplay)
 		return
 	}
 	r := vcommon.Start("C12", "model_checking")
@@ -96,6 +102,7 @@ func main() {
 	transitions := 0
 	cores := 0
 	undos := 0
+	harnessRetries := 0
 	requests := 0
 	stale, early := 0, 0
 	startKey := ""
@@ -179,6 +186,20 @@ func main() {
 			var jr JobResult
 			if err := json.Unmarshal(res.Raw, &jr); err != nil {
 				fail("bad worker answer: %v", err)
+			}
+			for retry := 0; jr.HarnessError != "" && retry < 3 && !strings.Contains(jr.HarnessError, "nondeterministic"); retry++ {
+				// a harness error is never a verdict: the machine may have refused a resource (ports, inotify instances,
+				// processes are shared with other checks); the job is executed again, a persistent error still aborts
+				harnessRetries++
+				time.Sleep(time.Duration(500*(retry+1)) * time.Millisecond)
+				again := pool.Run([]any{jobs[i]})[0]
+				if again.Crash != "" {
+					continue
+				}
+				jr = JobResult{}
+				if err := json.Unmarshal(again.Raw, &jr); err != nil {
+					fail("bad worker answer: %v", err)
+				}
 			}
 			if jr.HarnessError != "" {
 				fail("history %v: %s", n.prefix, jr.HarnessError)
@@ -265,6 +286,7 @@ func main() {
 	sort.Strings(ocs)
 	r.Set("outcomes", ocs)
 	r.Set("worker_crashes", pool.Crashed.Load())
+	r.Set("jobs_reexecuted_after_an_environment_error", harnessRetries)
 	r.Note("informational, not a verdict: %d of %d reads issued right after a 200 answer (before the reload was known to be complete) "+
 		"differed from the read after quiescence", stale, early)
 	r.Exhaustive = exhaustive && completedDepth == depth
@@ -278,5 +300,7 @@ func main() {
 	if len(outcomes) < 6 {
 		fail("vacuous: only %d outcome classes", len(outcomes))
 	}
+	pool.Close()
+	os.RemoveAll(tmp) // Finish exits the process: deferred calls do not run
 	r.Finish()
 }
